@@ -432,7 +432,7 @@ def _sync_sleep_action(
 ) -> SleepDecision:
     """Execute sync sleep and handle sleep decision."""
     ctx = decision.context
-    sleep_impl = sleeper or time.sleep
+    sleep_impl = time.sleep if sleeper is None else sleeper
     if sleep_fn is None:
         if before_sleep is not None:
             if ctx is None:
@@ -466,7 +466,7 @@ async def _async_sleep_action(
 ) -> SleepDecision:
     """Execute async sleep and handle sleep decision."""
     ctx = decision.context
-    sleep_impl = sleeper or asyncio.sleep
+    sleep_impl = asyncio.sleep if sleeper is None else sleeper
     if sleep_fn is None:
         if before_sleep is not None:
             if ctx is None:
